@@ -37,13 +37,32 @@ pub fn run(
         trees: rev_trees,
         routes: _,
         iterations: rev_iterations,
-    } = underlying.run_vertex_oriented(
+    } = match underlying.run_vertex_oriented(
         query.target,
         Some(query.source),
         query.user_query,
         &Direction::Reverse,
         si,
-    )?;
+    ) {
+        Ok(rev_result) => rev_result,
+        Err(e) => {
+            // the query is answered by the forward search; a failed reverse search only means
+            // that no alternatives can be generated
+            log::debug!("ksp reverse search failed, returning the shortest route only: {}", e);
+            let tsp = fwd_trees
+                .first()
+                .ok_or_else(|| {
+                    SearchError::InternalError(String::from("cannot retrieve fwd tree 0"))
+                })
+                .and_then(|t| backtrack::vertex_oriented_route(query.source, query.target, t))?;
+            let routes = vec![tsp].into_iter().take(query.k).collect_vec();
+            return Ok(SearchAlgorithmResult {
+                trees: fwd_trees,
+                routes,
+                iterations: fwd_iterations,
+            });
+        }
+    };
     if fwd_trees.len() != 1 {
         Err(SearchError::InternalError(format!(
             "ksp solver fwd trees count should be exactly 1, found {}",
